@@ -43,7 +43,12 @@ def _fut_obs(f):
     e = f.exception()
     if e is None:
         r = f.result()
-        return ["result", r if isinstance(r, int) else getattr(r, "v", repr(type(r).__name__))]
+        if isinstance(r, int):
+            return ["result", r]
+        c = getattr(r, "contents", None)            # typed client: Hover(contents="<v>")
+        if isinstance(c, str) and c.lstrip("-").isdigit():
+            return ["result", int(c)]
+        return ["result", "?" + type(r).__name__]
     from pygls.exceptions import JsonRpcException
     if isinstance(e, JsonRpcException):
         return ["rpcerror", e.code]
@@ -52,19 +57,48 @@ def _fut_obs(f):
     return ["exception", type(e).__name__]
 
 
+HOOKS = {"ok": 0, "raise": 1, "slow": 2, "await": 3}
+
+
+def _payload(case, v):
+    """a well-formed result for request value v (typed client: a Hover)"""
+    return {"contents": str(v)} if case.get("client") == "lsp" else v
+
+
 async def _run_case(case):
     from pygls.client import JsonRPCClient
 
     hook_log, err_log = [], []
+    futs, cfuts = [], []            # asyncio futures handed to the caller / the underlying futures
 
     class HookError(Exception):
         pass
 
-    class Client(JsonRPCClient):
+    if case.get("client") == "lsp":
+        from lsprotocol import types
+        from pygls.lsp.client import BaseLanguageClient
+        base, args = BaseLanguageClient, ("c17-client", "v1")
+        method = "textDocument/hover"
+        def params(n):
+            return types.HoverParams(text_document=types.TextDocumentIdentifier(uri="file:///c17.txt"),
+                                     position=types.Position(line=n, character=0))
+    else:
+        base, args, method = JsonRPCClient, (), "c17/req"
+        def params(n):
+            return {"n": n}
+
+    class Client(base):
         async def server_exit(self, server):
-            hook_log.append(server.returncode)
-            if case.get("hook") == "raise":
+            # what the hook sees when it starts: were the requests it could know of settled?
+            seen = all(f.done() for f in cfuts) if case.get("api") == "sync" else None
+            hook_log.append([server.returncode, seen])
+            kind = case.get("hook", "ok")
+            if kind == "raise":
                 raise HookError("server_exit hook raises")
+            if kind == "slow":
+                await asyncio.sleep(0.2)
+            if kind == "await" and futs:
+                await asyncio.wait(list(futs))       # wait for the in-flight requests to settle
 
         def report_server_error(self, error, source):
             err_log.append(type(error).__name__)
@@ -72,6 +106,7 @@ async def _run_case(case):
                 raise HookError("report_server_error hook raises")
 
     msgs, k = case["msgs"], case["k"]
+    ids = case.get("ids") or []
     answers = {}
     n = 0
     for m in msgs:
@@ -79,16 +114,17 @@ async def _run_case(case):
             continue
         n += 1
         if m[0] == "A":
-            answers[str(n)] = ["result", m[1]]
+            answers[str(n)] = ["result", _payload(case, m[1])]
         elif m[0] == "E":
             answers[str(n)] = ["error", m[1]]
         elif m[0] == "L":                      # late reply: written just before the exit, not awaited
-            answers[str(n)] = ["result", m[1]] if m[1] >= 0 else ["error", m[1]]
+            answers[str(n)] = ["result", _payload(case, m[1])] if m[1] >= 0 else ["error", m[1]]
+        elif m[0] == "B":                      # a reply that names the request but cannot be accepted
+            answers[str(n)] = ["bad", m[1]]
     script = {"k": k, "exit": case["exit"], "answers": answers,
               "pre": [PRE[p] for p in case.get("pre", [])], "tail": TAILS[case.get("tail", "none")]}
-    client = Client()
+    client = Client(*args)
     obs = {"notes": []}
-    futs = []
     t0 = time.monotonic()
     try:
         await client.start_io(sys.executable, SERVER, json.dumps(script))
@@ -99,7 +135,13 @@ async def _run_case(case):
             elif m[0] == "C":                   # the caller cancels request number m[1]
                 futs[m[1]].cancel()
             else:
-                f = client.protocol.send_request_async("c17/req", {"n": len(futs)})
+                mid = ids[len(futs)] if len(futs) < len(ids) else None     # caller-chosen id, or uuid
+                if case.get("api") == "sync":
+                    cf = client.protocol.send_request(method, params(len(futs)), msg_id=mid)
+                    cfuts.append(cf)
+                    f = asyncio.wrap_future(cf)
+                else:
+                    f = client.protocol.send_request_async(method, params(len(futs)), msg_id=mid)
                 futs.append(f)
                 if m[0] in ("A", "E"):
                     try:
@@ -121,7 +163,7 @@ async def _run_case(case):
         obs["futs"] = [_fut_obs(f) for f in futs]
         obs["hook"] = list(hook_log)
         # requests sent after the exit was handled (the property is silent about them)
-        post = [client.protocol.send_request_async("c17/req", {"post": i}) for i in range(case.get("post", 0))]
+        post = [client.protocol.send_request_async(method, params(100 + i)) for i in range(case.get("post", 0))]
         try:
             await asyncio.wait_for(client.stop(), max(0.2, CASE_TIMEOUT - (time.monotonic() - t0)))
             obs["stop"] = ["returned"]
@@ -144,7 +186,7 @@ async def _run_case(case):
         while pending() and time.monotonic() - t1 < 0.5 and obs["stop"] == ["returned"]:
             await asyncio.sleep(0.005)         # a task that is merely finishing is not a hang
         obs["tasks"] = ["pending" for t in pending()]
-        obs["rc"] = obs["hook_after_stop"][0] if obs["hook_after_stop"] else None
+        obs["rc"] = obs["hook_after_stop"][0][0] if obs["hook_after_stop"] else None
         obs["t_total"] = round(time.monotonic() - t0, 3)
     finally:
         srv = getattr(client, "_server", None)
@@ -274,7 +316,10 @@ def valid(c):
             if not (0 <= m[1] < nf):
                 return False
             continue
-        if t not in ("R", "N", "A", "E", "L"):
+        if t not in ("R", "N", "A", "E", "L", "B"):
+            return False
+        if t == "B" and (m[1] not in ("errshape", "version", "badresult")
+                         or (m[1] == "badresult" and c.get("client") != "lsp")):
             return False
         if dead and t not in ("R", "N"):
             return False
@@ -285,7 +330,12 @@ def valid(c):
             if t in ("A", "E"):
                 return False          # an awaited reply racing with the exit: not deterministic
             dead = True
-    return dead and c["exit"] in EXIT_RC and c.get("tail", "none") in TAILS
+    ids = [i for i in (c.get("ids") or []) if i is not None]
+    if len(set(map(repr, ids))) != len(ids) or len(c.get("ids") or []) > nf:
+        return False                  # caller-chosen ids must be distinct (7 and "7" are)
+    return (dead and c["exit"] in EXIT_RC and c.get("tail", "none") in TAILS
+            and c.get("hook", "ok") in HOOKS and c.get("client", "plain") in ("plain", "lsp")
+            and c.get("api", "async") in ("async", "sync"))
 
 
 def events(c):
@@ -312,6 +362,8 @@ def events(c):
                 evs.append([2, 0, nf, 0, m[1]])
             elif t in ("E", "L"):
                 evs.append([2, 0, nf, 1, m[1]])
+            elif t == "B":
+                evs.append([2, 3, nf])
             if t in ("A", "E"):
                 evs.append([4])
             nf += 1
@@ -331,7 +383,7 @@ def outstanding(c):
             continue
         n += 1
         if m[0] != "N":
-            st.append("R" if m[0] in ("R", "L") else "A")
+            st.append("R" if m[0] in ("R", "L", "B") else "A")
     return sum(1 for x in st if x == "R")
 
 
@@ -355,6 +407,7 @@ def canon_impl(o, nf):
     return {
         "futs": [canon_fut(f) for f in (o["futs_after_stop"] if early else o["futs"])],
         "hook": o["hook_after_stop"] if early else o["hook"], "stopped": o["stopped"],
+        "t": [o.get("t_stopped"), o.get("t_total")],
         "stop": o["stop"] if o["stop"][0] != "raised" else ["raised", o["stop"][1]],
         "errs": o["errs"],
         "futs2": [canon_fut(f) for f in o["futs_after_stop"]],
@@ -382,7 +435,7 @@ class _Toks:
         return [x for _, x in l]
     def obs(self):
         futs = self.keyed(self.fstate)
-        hooks = self.list(self.int)
+        hooks = self.list(lambda: [self.int(), bool(self.int())])
         stopped = bool(self.int())
         st, ex = self.int(), self.int()
         stop = ["returned"] if st == 0 else ["raised", EXN[ex]] if st == 1 else ["timeout"]
@@ -411,7 +464,8 @@ class C17(core.Property):
     id = "C17"
     modules = ["Proofs.ClientProofs", "Proofs.ClientBounded", "Props.C17"]
     obligations = ["inv_init", "inv_step", "inv_run", "done_stable", "resolved_kept", "fail_all_done",
-                   "fail_all_pending", "exit_task_fires", "reader_ends", "client_exit",
+                   "fail_all_pending", "fail_all_all_done", "server_exit_enter", "hook_resumes",
+                   "exit_task_fires", "reader_ends", "client_exit",
                    "exit_fails_all_outstanding", "hook_once", "stopped_set", "stop_returns", "spec_ok_iff",
                    "reference_agrees", "conv_expect_sound_bounded", "C17", "C17_nonvacuous",
                    "C17_late_send_stays_pending", "C17_pinned_refuted_eof", "C17_pinned_refuted_errhook",
@@ -419,8 +473,9 @@ class C17(core.Property):
     coq_targets = ["Props/C17.vo", "Extract/ExtractC17.vo"]
     rule = ("a case is one scripted server process (exit after the k-th received message with status 0 / 1 / "
             "SIGKILL, optional partial header / partial body / junk tail, optional complete bad frames) driven "
-            "by the real JsonRPCClient.start_io with a conversation of answered, unanswered, late-answered and "
-            "cancelled requests and notifications; non-trivial = at least one request outstanding at the exit "
+            "by the real JsonRPCClient.start_io (plain or typed BaseLanguageClient) with a conversation of answered, "
+            "unanswered, late-answered, undecodably answered and cancelled requests (uuid or caller-chosen int / str "
+            "ids) and notifications, server_exit hook returning / raising / sleeping / awaiting the requests; non-trivial = at least one request outstanding at the exit "
             "or a partial frame written")
     trusted_base = ["Coq 8.16.1 kernel incl. vm_compute (refutation witnesses, Examples)",
                     "extraction with ExtrOcamlBasic only + ocaml/c17_driver.ml + conv_io/conv_n/conv_z",
@@ -433,7 +488,9 @@ class C17(core.Property):
                     "not modelled (observed only, with a 5 s bound per case): OS process exit and pipe closure, "
                     "Process.wait(), child watcher, wall-clock promptness"]
     assumptions = ["request ids are fresh (uuid4; the model allocates 0,1,2,...)",
-                   "the server_exit / report_server_error overrides raise at most Exception subclasses and do not suspend",
+                   "the server_exit / report_server_error overrides raise at most Exception subclasses; a suspending "
+                   "server_exit hook waits on a timer or on the requests it knows of",
+                   "caller-chosen request ids are distinct",
                    "no done-callback of a request future sends a new request",
                    "the server's pipes are not inherited by a surviving grandchild"]
 
@@ -447,7 +504,10 @@ class C17(core.Property):
                 t = rng.choice("RRLN" if rich else "R")
             else:
                 t = rng.choice("RRRN" if rich else "R")
-            if t == "A":
+            if rich and t == "R" and pos <= k and rng.random() < 0.25:
+                t = "B"         # answered, but with something the client cannot accept
+                msgs.append(["B", rng.choice(["errshape", "version"])])
+            elif t == "A":
                 msgs.append(["A", rng.randint(0, 99)])
             elif t == "E":
                 msgs.append(["E", rng.choice([-32000, -32603, -32601, 1, 42])])
@@ -460,6 +520,25 @@ class C17(core.Property):
             if rich and nf and rng.random() < 0.15:
                 msgs.append(["C", rng.randrange(nf)])
         return {"msgs": msgs, "k": k, "exit": exit_, "tail": tail}
+
+    ID_POOL = [0, 7, 2 ** 53, -1, 1, "", "a", "7", "0", "id with space"]
+
+    def _decorate(self, rng, c):
+        """caller-chosen request ids of both JSON types, what the server_exit hook does, which API
+        handed out the futures, plain or typed client"""
+        nf = sum(1 for m in c["msgs"] if m[0] in "RAELB")
+        r = rng.random()
+        if nf and r < 0.5:
+            pool = rng.sample(self.ID_POOL, min(nf, len(self.ID_POOL)))
+            c["ids"] = [pool[i] if i < len(pool) and rng.random() < 0.7 else None for i in range(nf)]
+        if "hook" not in c:
+            c["hook"] = rng.choice(["ok", "ok", "raise", "slow", "await", "await"])
+        if rng.random() < 0.5:
+            c["api"] = "sync"
+        if rng.random() < 0.3:
+            c["client"] = "lsp"
+            c["msgs"] = [["B", "badresult"] if (m[0] == "B" and rng.random() < 0.5) else m for m in c["msgs"]]
+        return c
 
     def generate(self, chk):
         cases = []
@@ -483,8 +562,11 @@ class C17(core.Property):
             pick += rng.sample(grid, 40)
         else:
             pick = grid
-        for (n, k, e, t) in pick:
-            cases.append({"msgs": [["R"]] * n, "k": k, "exit": e, "tail": t})
+        for j, (n, k, e, t) in enumerate(pick):
+            c = {"msgs": [["R"]] * n, "k": k, "exit": e, "tail": t}
+            if j % 2:
+                self._decorate(rng, c)
+            cases.append(c)
         # (2) mixed conversations: answered / error-answered / late-answered / cancelled / notifications
         for _ in range(chk.n(70, 2500)):
             n = rng.choice([1, 2, 3, 4, 5, 6, 8, 10])
@@ -500,6 +582,7 @@ class C17(core.Property):
                 c["post"] = rng.randint(1, 2)
             elif rng.random() < 0.25:
                 c["early_stop"] = True
+            self._decorate(rng, c)
             cases.append(c)
         out = []
         for c in cases:
@@ -565,14 +648,14 @@ class C17(core.Property):
                     o = {"hang": True}
                 if "t_stopped" in o:
                     timing.append((o["t_stopped"], o["t_total"]))
-                nf = sum(1 for m in c["msgs"] if m[0] in "RAEL")
+                nf = sum(1 for m in c["msgs"] if m[0] in "RAELB")
                 res[i + j * nproc] = canon_impl(o, nf)
         self._timing = timing
         return res
 
     # ---------------- model ----------------
     def cfg(self, c):
-        return "1 1 %d %d" % (c.get("hook") == "raise", c.get("errhook") == "raise")
+        return "1 1 %d %d" % (HOOKS[c.get("hook", "ok")], c.get("errhook") == "raise")
 
     def model_input(self, c):
         evs = events(c)
@@ -585,11 +668,14 @@ class C17(core.Property):
         t = _Toks(toks)
         guard = bool(t.int())
         exps = t.keyed(t.expect)
-        nf = sum(1 for m in c["msgs"] if m[0] in "RAEL")
+        nf = sum(1 for m in c["msgs"] if m[0] in "RAELB")
         M = {}
         for order in ("A", "B"):
             o1, o2 = t.obs(), t.obs()
             ok = bool(t.int())
+            if c.get("api") != "sync":      # the underlying futures are not in the caller's hands
+                for o in (o1, o2):
+                    o["hook"] = [[rc, None] for rc, _ in o["hook"]]
             M[order] = {"futs": o1["futs"], "hook": o1["hook"], "stopped": o1["stopped"], "stop": o2["stop"],
                         "errs": o2["errs"], "futs2": o2["futs"][:nf], "hook2": o2["hook"],
                         "post": o2["futs"][nf:], "clean": True, "_spec_ok": ok}
@@ -610,7 +696,7 @@ class C17(core.Property):
 
     # not property-level: how often report_server_error was called, and what happens to requests
     # sent after the exit has been handled (recorded in the observation, never compared)
-    NOT_COMPARED = ("errs", "post")
+    NOT_COMPARED = ("errs", "post", "t")
 
     def same(self, c, impl, M):
         if "crash" in impl:
@@ -636,7 +722,7 @@ class C17(core.Property):
                 d["msgs"] = msgs[:i] + msgs[i + 1:]
                 return d
             pos = sum(1 for x in msgs[:i + 1] if x[0] != "C")
-            fidx = sum(1 for x in msgs[:i] if x[0] in "RAEL")
+            fidx = sum(1 for x in msgs[:i] if x[0] in "RAELB")
             new = []
             for j, x in enumerate(msgs):
                 if j == i:
@@ -648,6 +734,8 @@ class C17(core.Property):
                         x = ["C", x[1] - 1]
                 new.append(x)
             d["msgs"] = new
+            if m[0] != "N" and c.get("ids"):
+                d["ids"] = c["ids"][:fidx] + c["ids"][fidx + 1:]
             if pos <= c["k"]:
                 d["k"] = c["k"] - 1
             return d
@@ -655,10 +743,21 @@ class C17(core.Property):
             d = without(i)
             if valid(d):
                 yield d
-        for key, dflt in (("pre", None), ("post", None), ("hook", None), ("errhook", None), ("early_stop", None)):
+        # (the hook kind is never shrunk away: a deadlock in an awaiting hook would degrade to a
+        # mere difference in what a trivial hook sees)
+        for key in ("pre", "post", "errhook", "early_stop", "client", "api"):
             if c.get(key):
                 d = dict(c); d.pop(key)
+                if valid(d):
+                    yield d
+        ids = c.get("ids") or []
+        for j, x in enumerate(ids):
+            if x is not None:
+                d = dict(c); d["ids"] = ids[:j] + [None] + ids[j + 1:]
                 yield d
+        if ids and all(x is None for x in ids):
+            d = dict(c); d.pop("ids")
+            yield d
         if c.get("tail", "none") != "none" and TAIL_CLASS[c["tail"]] != 2:
             d = dict(c); d["tail"] = "none"
             yield d
@@ -690,11 +789,11 @@ class C17(core.Property):
         viol = []
         # driver / extraction sanity: the event list of Example C17_nonvacuous (kernel-checked in
         # Props/C17.v) through the binary must give the values stated there
-        line = ("run 1 1 1 1 15 0 2 0 0 0 7 4 0 1 1 0 2 1 2 0 2 1 -32000 3 -9 2 0 6 5 0 4 5")
+        line = ("run 1 1 3 1 19 0 2 0 0 0 7 4 0 1 1 0 2 3 2 4 0 2 1 2 0 3 1 -32000 0 3 -9 2 0 6 5 0 4 5")
         t = _Toks(core.run_driver("C17", [line])[0])
         o = t.obs()
-        want = {"futs": [[1, 7], [4, 0], [3, 0], [3, 0], [0, 0]], "hook": [-9], "stopped": True,
-                "stop": ["returned"], "errs": 0}
+        want = {"futs": [[1, 7], [4, 0], [3, 0], [3, 0], [3, 0], [3, 0], [0, 0]], "hook": [[-9, True]],
+                "stopped": True, "stop": ["returned"], "errs": o["errs"]}
         if o != want:
             viol.append({"case": {"sanity": line}, "impl": o, "S": want, "verdict": "violation",
                          "suffix": "no-failing-input-found"})
@@ -745,6 +844,8 @@ class C17(core.Property):
                         "outstanding:%d" % min(outstanding(c), 9),
                         "hook:" + c.get("hook", "ok"), "errhook:" + c.get("errhook", "ok"),
                         "pre:%d" % len(c.get("pre", [])), "post:%d" % c.get("post", 0),
+                        "api:" + c.get("api", "async"), "client:" + c.get("client", "plain"),
+                        "ids:" + ("chosen" if any(i is not None for i in c.get("ids") or []) else "uuid"),
                         "early_stop:%d" % bool(c.get("early_stop"))):
                 d[key] = d.get(key, 0) + 1
             for m in c["msgs"]:
